@@ -8,7 +8,7 @@ func init() {
 		Rule: "decision monitor: a case = (covert string, policy); it is non-trivial when the string has host:port structure with a decimal 16-bit port " +
 			"(so the verdict depended on policy / resolver, not on syntax alone); distinct_nontrivial = distinct (string, policy) pairs of that kind. " +
 			"e2e monitor: a case = one registration pushed through parseRegMessage + ingestRegistration (+ Proxy when it became valid) with loopback listeners " +
-			"on permitted and forbidden addresses; distinct = (scenario kind, policy mode, registration source, v4/v6 split); further e2e classes: histories of one secret with different coverts " +
+			"on permitted and forbidden addresses; distinct = (scenario kind, policy mode, registration source, v4/v6 split, flags variant of the message: none / empty / prescanned / proxy_header / use_TIL+upload_only+dark_decoy / all – every e2e class builds its messages with a rotating RegistrationFlags variant, every (kind, policy mode, variant) at least once); further e2e classes: histories of one secret with different coverts " +
 			"and back-dated records, admitted literal without listener (failure path of Proxy), and registrations on connecting transports (mock + real DTLS transport, Connect succeeds) " +
 			"whose sessions ingest itself hands to Proxy – per (policy, covert class, source) the evidence counts cases, successful Connects and observed Proxy runs. " +
 			"reloaddiff monitor: a case = (reload step of a configuration chain, covert): the reloaded manager's decision is compared with a manager freshly started from the new file; " +
